@@ -26,7 +26,8 @@ REAL = ["OrderedRingBuffer (update, _update_gaps, _cleanup_gaps, _remove_gap, wi
         "normalize_timestamp, count_valid, count_covered, oldest/newest_timestamp, is_missing)", "serialization dump/load",
         "MovingWindow (_run_impl task, window, at, __getitem__)"]
 STUB = ["sample source: a regular stream passed through a lossy / duplicating / reordering / jumping transport"]
-RULE = ("one run = one buffer (capacity 1-12, period 1 ms/0.5 s/1 s/7 s, align_to on or off the data grid, list or numpy) and "
+RULE = ("one run = one buffer (capacity 1-12, period 7 us/1 ms/0.5 s/1 s/1.000001 s/7 s, align_to on or off the data grid or in a "
+        "daylight-saving zone, window optionally straddling a clock change with zone-stamped samples, list or numpy, dump/load) and "
         "a history of 10-60 updates from the faulty transport, each followed by a full comparison with the slot-map model and "
         "2-4 window queries (indices incl. None/negative/out of range, datetimes inside/outside/straddling/unaligned/closer "
         "than one period/reversed; fill NaN/number/None); non-trivial = the history contains an out-of-order, too-old, jump, "
